@@ -43,6 +43,9 @@ enum Edit {
     /// update (new label and value) the note this device created earlier
     /// in the same offline suffix
     UpdateCreated,
+    /// compact the default folder (history rewrite: the other side meets a
+    /// hard conflict and force-merges)
+    CompactDefault,
 }
 
 impl Edit {
@@ -61,11 +64,12 @@ impl Edit {
             Edit::UpdateS1 => "update_s1",
             Edit::CreateInF1 => "create_in_f1",
             Edit::UpdateCreated => "update_created",
+            Edit::CompactDefault => "compact_default",
         }
     }
 }
 
-const ALL_EDITS: [Edit; 12] = [
+const ALL_EDITS: [Edit; 13] = [
     Edit::CreateNote,
     Edit::UpdateS0,
     Edit::DeleteS0,
@@ -78,6 +82,7 @@ const ALL_EDITS: [Edit; 12] = [
     Edit::MoveS0ToF1,
     Edit::UpdateS1,
     Edit::CreateInF1,
+    Edit::CompactDefault,
 ];
 
 #[derive(Clone, Copy, Debug, Serialize, Deserialize, PartialEq, Eq, Hash)]
@@ -130,6 +135,9 @@ async fn apply_edit(
             let (m, s) = gen::secret("note", 0, &format!("d{}k{}", d, k));
             let id = acc.create_secret(m, s, in_folder(default)).await?.id;
             created.push(id);
+        }
+        Edit::CompactDefault => {
+            acc.compact_folder(&default).await?;
         }
         Edit::UpdateCreated => {
             let id = *created.last().ok_or_else(|| anyhow!("nothing created yet"))?;
@@ -639,10 +647,12 @@ async fn run_scenario(t: &Template, sc: &Scenario, work: &Path) -> Value {
                 fails.push("C04", format!("observer_not_converged:{}", cls), "a device that only pulls does not reach the server's status".into(), json!({}));
             }
         }
-        // ---- C05 oracles on every replica's logs
+        // ---- C05 oracles on every replica's logs (premise of the
+        // property: no history rewrite such as compaction in between)
+        let rewrite = sc.edits.iter().flatten().any(|e| matches!(e, Edit::CompactDefault));
         let mut c05_checked = 0u64;
         let mut c05_skipped = 0u64;
-        {
+        if !rewrite {
             let mut replicas: Vec<(String, BTreeMap<String, Vec<EventRecord>>)> = vec![];
             for d in 0..n_edit {
                 let a = devices[d].account.lock().await;
